@@ -1,5 +1,7 @@
 import StorageModel.C17.SnapshotProofs
 import StorageModel.C17.StagedProofs
+import StorageModel.C17.PathsProofs
+import StorageModel.C17.PathTable
 import StorageModel.C17.TimelineConc
 import StorageModel.C17.LockProofs
 import StorageModel.C17.LockTable
@@ -716,5 +718,163 @@ example :
     ts.length = 4 ∧
     allDone (exec (init ts) [0, 0, 2, 2, 0, 0, 2, 2, 2, 2, 2, 1, 3, 3, 1, 1, 3, 3, 3, 3, 3]) = true := by
   decide
+
+/-! ## The path argument of Snapshot / SnapshotInTx (C17/Paths.lean)
+
+The slot of the sequential model is "the file under the path the call returned".  Below the path is a
+string, the argument a template with placeholders, the directory a map from paths to bolt files. -/
+
+/-- **the file under the returned path is the marked copy, nothing else is touched** — for EVERY template
+    (any placeholders, in any number, in either form, or none), every clock / db location, every
+    directory content: the call returns the expansion, the file under the returned path is the copy
+    with the two markers, every other file of the directory is as before. -/
+theorem snapshot_path_file_marked (e : Env) (tmpl : Path) (id : Nat) (copy : Db) (fs : PFS) :
+    (snapshotInTx e tmpl id copy fs).1 = expand e tmpl ∧
+    lookupP (snapshotInTx e tmpl id copy fs).1 (snapshotInTx e tmpl id copy fs).2 = some (mark id copy) ∧
+    ∀ q, q ≠ (snapshotInTx e tmpl id copy fs).1 →
+      lookupP q (snapshotInTx e tmpl id copy fs).2 = lookupP q fs :=
+  ⟨rfl, snapshotFiles_same _ _ _ _, fun q hq => snapshotFiles_other _ q _ _ _ hq⟩
+
+/-- **exactly the uses of the path that agree are correct.**  For an arbitrary assignment of paths to
+    the three uses (CopyFile, MarkAsSnapshot, returned value): the file under the returned path is
+    the marked copy for every id / database / directory IFF the copy and the markers went to the
+    returned path. -/
+theorem path_use_correct_iff (u : PathUse) :
+    (∀ id copy fs, lookupP u.returned (snapshotFiles u id copy fs).2 = some (mark id copy)) ↔
+    (u.copyTo = u.returned ∧ u.markAt = u.returned) := by
+  obtain ⟨c, m, r⟩ := u
+  constructor
+  · intro h
+    have h0 := h 1 { content := [(0, 0)] } []
+    simp only [snapshotFiles, markAsSnapshot, copyFile] at h0
+    by_cases hm : m = r
+    · subst hm
+      rw [lookupP_storeP_same] at h0
+      by_cases hc : c = m
+      · exact ⟨hc, rfl⟩
+      · have hc' : m ≠ c := fun hh => hc hh.symm
+        simp [storeP, lookupP, hc', mark] at h0
+    · have hm' : r ≠ m := fun hh => hm hh.symm
+      rw [lookupP_storeP_other _ _ _ _ hm'] at h0
+      by_cases hc : r = c
+      · subst hc; simp [storeP, lookupP, mark] at h0
+      · simp [storeP, lookupP, hc] at h0
+  · intro ⟨h1, h2⟩ id copy fs
+    simp only at h1 h2
+    subst h1 h2
+    exact snapshotFiles_same _ _ _ _
+
+/-- a template without `D` and `T` (every placeholder contains one of them) is its own expansion:
+    with a plain path the argument and the expansion are the same string -/
+theorem expand_plain_path (e : Env) (p : Path) (hD : 'D' ∉ p) (hT : 'T' ∉ p) : expand e p = p :=
+  expand_plain e p hD hT
+
+/-- **the path level refines the slot level**, for whole histories (each operation with the clock at
+    which it is made), under any injective naming of paths: same database, same counters, same files,
+    same observations.  Every sequential theorem above therefore speaks about histories whose
+    snapshots are taken through templates, with slot = name of the expansion. -/
+theorem path_level_refines_slots (code : Path → Nat) (hinj : ∀ a b, code a = code b → a = b)
+    (ps : PSys) (s : Sys) (h : Sim code ps s) (hist : List (Env × POp)) :
+    Sim code (prun ps hist).1 (run s (hist.map fun eo => eo.2.abs code eo.1)).1 ∧
+    (prun ps hist).2.map PObs.abs = (run s (hist.map fun eo => eo.2.abs code eo.1)).2 := by
+  induction hist generalizing ps s with
+  | nil => exact ⟨h, rfl⟩
+  | cons eo os ih =>
+    obtain ⟨e, o⟩ := eo
+    obtain ⟨h1, h2⟩ := pstep_refines code hinj e ps s o h
+    obtain ⟨i1, i2⟩ := ih _ _ h1
+    exact ⟨i1, by simp only [prun, run, List.map_cons, h2, i2]⟩
+
+/-- **restore ∘ snapshot through a template.**  Every start state and directory, every history `h1`,
+    a snapshot with ANY template at ANY clock, every further history `h2` that does not write the
+    file the call returned (other templates, the same template at another second, other files),
+    a restore of the file under the RETURNED path through any reader: the database is the one at
+    snapshot time with exactly the two markers, GetSnapshotId reports the returned id, and the next
+    timeline request calls idF once and returns the fresh id, in every mode. -/
+theorem path_restore_snapshot (ps0 : PSys) (h1 h2 : List (Env × POp)) (e eR : Env) (tmpl : Path) (inTx : Bool)
+    (rd : Reader) (hk : KeepsPath (expand e tmpl) h2) :
+    let pA := (prun ps0 h1).1
+    let fin := (prun ps0 (h1 ++ [(e, .snapT tmpl inTx)] ++ h2 ++ [(eR, .restoreFrom (expand e tmpl) rd)])).1
+    (pstep e pA (.snapT tmpl inTx)).2 = .snappedAt (expand e tmpl) pA.base.nextId pA.base.db ∧
+    fin.base.db = mark pA.base.nextId pA.base.db ∧
+    (step fin.base .gsid).2 = .sid (some pA.base.nextId) ∧
+    ∀ m, (step fin.base (.gtl m true)).2 = .tl (some (fin.base.idf + 1)) 1 := by
+  intro pA fin
+  have key : fin.base.db = mark pA.base.nextId pA.base.db := by
+    simp only [fin, prun_append, List.append_assoc]
+    have hfile : lookupP (expand e tmpl) (prun (prun (prun ps0 h1).1 [(e, .snapT tmpl inTx)]).1 h2).1.fs
+        = some (mark pA.base.nextId pA.base.db) := by
+      rw [prun_keeps_file _ h2 _ hk]
+      simp only [prun, pstep, snapshotInTx, pathUseCode]
+      exact snapshotFiles_same _ _ _ _
+    simp only [prun, pstep] at hfile ⊢
+    simp [hfile]
+  refine ⟨rfl, key, ?_, ?_⟩
+  · simp only [step, key]; simp [mark]
+  · intro m
+    exact (timeline_once fin.base (by rw [key]; rfl) m).1
+
+/-- non-vacuity + what the expansion does, decided: both forms of every placeholder, several at once,
+    adjacent ones, the `__X__` form losing its underscores (it is replaced before the bare form), a
+    bare placeholder between single underscores, lower case untouched, the text a replacement put
+    in being seen by the later calls (a db directory called DATE) -/
+def demoEnv : Env := { date := "20260930".toList, time := "155703".toList, dbDir := "/data".toList, dbFile := "ctrl.db".toList }
+example : expand demoEnv "/backups/ctrl-DATE-TIME.db".toList = "/backups/ctrl-20260930-155703.db".toList := by decide
+example : expand demoEnv "__DB_DIR__/__DB_FILE__-__DATE____TIME__".toList = "/data/ctrl.db-20260930155703".toList := by decide
+example : expand demoEnv "DB_DIR/DB_FILE.DATETIME".toList = "/data/ctrl.db.20260930155703".toList := by decide
+example : expand demoEnv "x_DATE_-date".toList = "x_20260930_-date".toList := by decide
+example : expand demoEnv "DATE-DATE".toList = "20260930-20260930".toList := by decide
+example : expand { demoEnv with dbDir := "/srv/DATE".toList } "__DB_DIR__/s".toList = "/srv/20260930/s".toList := by decide
+example : expand demoEnv "/backups/plain.db".toList = "/backups/plain.db".toList := by decide
+
+/-- the variant that keeps the expansion in a second variable and marks the ARGUMENT (seeded C17-18): with a
+    template that has a placeholder the file under the returned path carries no marker at all, and a
+    second file appears under the literal template; restoring the returned file reports no snapshot
+    id and requests no timeline reset.  With a plain path the two variables are equal and nothing changes. -/
+example :
+    let u := pathUseSplit demoEnv "b-DATE".toList
+    let r := snapshotFiles u 7 { content := [(0, 1)], mt := { present := true, tl := some 1, rt := some false } } []
+    r.1 = "b-20260930".toList ∧
+    (lookupP r.1 r.2).map (·.mt.sid) = some none ∧
+    (lookupP r.1 r.2).map (·.mt.rt) = some (some false) ∧
+    (lookupP "b-DATE".toList r.2).map (·.mt.sid) = some (some 7) ∧
+    (lookupP "b-DATE".toList r.2).map (·.content) = some [] := by decide
+example : pathUseSplit demoEnv "b-plain".toList = pathUseCode demoEnv "b-plain".toList := by decide
+example : ¬ ((pathUseSplit demoEnv "b-DATE".toList).markAt = (pathUseSplit demoEnv "b-DATE".toList).returned) := by decide
+
+/-- non-vacuity of `path_restore_snapshot`: a decided history — snapshot through a template, the same
+    template a second later (another file), a stream into a third file, a write; restore of the first -/
+example :
+    let e1 := demoEnv
+    let e2 := { demoEnv with time := "155704".toList }
+    let hist : List (Env × POp) :=
+      [(e1, .other (.tx [.put 0 1] true)), (e1, .other (.gtl .initIfEmpty true)),
+       (e1, .snapT "s-DATE-TIME".toList false),
+       (e2, .other (.tx [.put 0 2, .put 1 3] true)), (e2, .snapT "s-DATE-TIME".toList true), (e2, .streamTo "w".toList),
+       (e2, .restoreFrom "s-20260930-155703".toList {}), (e2, .other .gsid), (e2, .other (.gtl .default true))]
+    (prun {} hist).2.drop 6 =
+      [.plain (.restored 0 { content := [(0, 1)], mt := { present := true, sid := some 1, rt := some true, tl := some 1 } }),
+       .plain (.sid (some 1)), .plain (.tl (some 2) 1)] := by decide
+
+/-! ### the path-level model and the code: table regenerated from SnapshotInTx by extract/dbpaths.go -/
+
+/-- table obligation: SnapshotInTx rewrites ONE path variable by exactly the chain of ReplaceAll calls the model's
+    `expand` is written after, and that variable after the last rewrite is what CopyFile receives, what
+    MarkAsSnapshot receives and what is returned (`pathUseCode`) -/
+theorem snapshot_path_program_expected :
+    readPathProgram Generated.dbSnapshotPathOps = some codeReplacements := by decide
+
+/-- hence the expansion read off the code is the model's, for every clock / location and every template -/
+theorem code_expansion_is_model (e : Env) (p : Path) :
+    (readPathProgram Generated.dbSnapshotPathOps).bind (fun r => expandTable e r p) = some (expand e p) := by
+  rw [snapshot_path_program_expected]; rfl
+
+/-- the table of the seeded variant (expansion kept in a second variable, the argument still marked) does not read -/
+example : readPathProgram [.assign "target" 1 "self.resolveSnapshotPath(path)", .copy "target" 1, .mark "path" 0,
+    .ret "target" 1] = none := by decide
+/-- marking before the last rewrite does not read either -/
+example : readPathProgram [.replace "path" 1 "DATE" "date", .copy "path" 1, .replace "path" 2 "TIME" "time",
+    .mark "path" 2, .ret "path" 2] = none := by decide
+example : readPathProgram [.copy "path" 0, .mark "path" 0, .ret "path" 0] = some [] := by decide
 
 end StorageModel.Properties.C17
